@@ -68,6 +68,16 @@ def gen_case(rng, kind, tier):
         H = hermitian_mpo(rng, L, qd) if rng.random() < 0.8 else mpsgen.rand_mpo(rng, L=L, qd=qd, maxD=2, boundary=(0, 0))
     psi = mpsgen.rand_mps(rng, L=L, qd=qd, maxD=int(rng.integers(1, 3)), consistent=rng.random() < 0.9,
                           dtype=str(rng.choice(['int', 'float', 'complex'])))
+    if rng.random() < 0.2:
+        # eigenvector starts: a Hamiltonian that is diagonal in the computational basis (Ising without transverse field) and a
+        # product basis state -- every local start vector is an exact eigenvector, so the Lanczos iteration ends at j = 0 with
+        # beta[0] = 0 exactly (the early-return branch of lanczos_iteration inside TDVP / DMRG; seeded change C10-g)
+        H = ptn.ising_mpo(L, float(rng.choice([1, -0.5, 2])), float(rng.choice([0.5, 1, -1])), 0.0)
+        psi = ptn.MPS(H.qd, [[0]] * (L + 1), fill=0.0)
+        for i in range(L):
+            A = np.zeros((2, 1, 1), dtype=[int, float, complex][int(rng.integers(0, 3))])
+            A[int(rng.integers(0, 2)), 0, 0] = [1, 2, -1][int(rng.integers(0, 3))]
+            psi.A[i] = A
     p = {'numiter': int(rng.integers(1, 4)), 'numsteps': 1 if rng.random() < 0.8 else 2}
     if kind.startswith('tdvp'):
         p['dt'] = complex(rng.choice([0.5j, 0.25j, -0.5j, 0.5, 0.25 + 0.5j, 1j]))
@@ -111,7 +121,14 @@ def _shard(name, shard, nshards, tier, seed):
                     op['tol'] = exact.enc_real(p['tol'])
                 Hsnap = mpsgen.snapshot(H)
                 dims = tuple(psi.bond_dims)
-                rec = krylov_kernels.KryRecorder()
+                # a third of the cases: the uninterpreted vector norm returns 0 / a value below the breakdown threshold at a chosen
+                # call, so that the early-return branch of lanczos_iteration is taken INSIDE the sweeps (seeded change C10-g)
+                plan = ()
+                if rng.random() < 0.35:
+                    plan = [None] * int(rng.integers(1, 8)) + [[0.0, 'tiny'][int(rng.integers(0, 2))]]
+                    if rng.random() < 0.3:
+                        plan += [None] * int(rng.integers(1, 5)) + ['tiny']
+                rec = krylov_kernels.KryRecorder(plan)
                 r = py_call(lambda: run_impl(kind, H, psi, p, rec))
                 if rec.inexact or too_big(rec.calls) or too_big(r):
                     c.skipped += 1
